@@ -84,6 +84,15 @@ def run(ctx: Check, tree: Tree) -> None:
     ]
     ctx.not_decided += ["z^L threshold behaviour and boundedness (asymptotics)", "equality of values of the symbolic-L and integer-L paths (SymPy simplify/lambdify)"]
     ctx.assumptions += ["SymPy's doit().simplify() and lambdify preserve the value of the Hankel expression"]
+    from ..rules import structural_subs_on_params
+
+    hz = structural_subs_on_params(tree, ("ampform.dynamics",))
+    for h in hz:
+        ctx.violation("R-STRUCTSUBS", f"{h['fn'].qual}::subs::{h['key']}", tree.loc(h["node"]),
+                      f"{h['fn'].qual}: `{unparse(h['node'])[:60]}` evaluates the expression 'at {h['key']} = value' by structural substitution, but `{h['key']}` is not always an atomic symbol",
+                      {"non_symbol_arguments": h["callers"][:4], "why": "SymPy rewrites e.g. sqrt(q2*d**2) to d*sqrt(q2) for positive d: the pattern no longer occurs and only part of the expression is substituted"})
+    if not hz:
+        ctx.ok("R-STRUCTSUBS", "src/ampform/dynamics", "no lineshape is evaluated 'at a point' by substituting a parameter that callers may bind to a compound expression")
     D.reset()
     te = TermEval(tree)
     PH = Opaque(("ref", "PHSP"))
